@@ -53,6 +53,21 @@ CHECKS["C09"] = dict(
     technique="TLA+ interval abstraction evaluated by TLC as an invariant over the regenerated IR and decoder guards; wire-model behaviours checked against the declared bounds",
 )
 
+CHECKS["C11"] = dict(
+    category="model_checking",
+    text="spec/Definers.tla (enum part: FromInt/AsInt/Variants and TryFrom over nine source types with the reinterpretation table, integers as 9-byte two's complement tuples) is run by TLC over all 302 enums of the corpus loaded from the independent front-end: exhaustive walks over u8/i8 (8-bit enums) and u16/i16 (16-bit enums), probe walks (every declared value, +-1, +-2^8/2^16/2^32 aliases, extremes of all source types, seeded integers) for the rest; invariants Injective, RoundTrip, ScanOK and two's-complement lemmas. Every state prints the specification's answer; vh definer asks the 300 public generated enum types the same question through from_int, every TryFrom impl, variants() and as_int (quick 1.6M states / 2.8M calls, thorough 5.2M states / 8.9M calls), comparing the enumerator or the value carried by the error.",
+    design_ref="DESIGN.md section 5 C11, notes/C11.md",
+    note="Trusted: tools/wowm_front.py + lower.py (syntactic), the anchor/name mapping of tools/definer_common.py (confirmed against the pub enum item; 2 enums not covered: Race 0.5.4 not generated, login SecurityFlag v3 pub(crate)), record decoding in harness/vh/src/definer.rs, usize = 64 bit, TLC. For a same-width other-signedness source either reading of the rejected value is accepted. Exhaustive only up to 16 bits; wider bases by probes.",
+    technique="TLA+ spec explored with TLC per corpus enum; spec-generated verdict tables replayed into the real generated types",
+)
+CHECKS["C12"] = dict(
+    category="model_checking",
+    text="spec/Definers.tla (flag part over bit sets: Is with zero_is_always_valid, Set, Clear, New, Empty, All, And/Or/Xor, integer conversions) is run by TLC over all 56 flags of the corpus: per enumerator every raw value of an 8-bit universe, and zero / all-ones / complement / every single bit / seeded values of wider ones; operand pairs; conversion probes; invariant FlagLaws (Clear(Set(v,x),x) = v \\ bits(x), Is(Set(v,x),x), All is the least upper bound, De Morgan on declared bits, byte encoding faithful). Every state prints the specification's answers; vh definer asks the 56 generated flag types and all 40 synthesised flag structs (constants, is/get, set, clear, new, empty, all, operators and assign forms, From/TryFrom incl. error values; quick 120k states / 1.2M calls, thorough 316k / 3.8M).",
+    design_ref="DESIGN.md section 5 C12, notes/C12.md",
+    note="Trusted: tools/wowm_front.py + lower.py, the anchor/name mapping of tools/definer_common.py (confirmed against the public items of the generated files), raw values read through LowerHex / the derived Debug output of synthesised structs, Default payloads for member-bearing enumerators, usize = 64 bit, u48 judged as the u64 that holds it, TLC. Known finding: clear_x = v & reverse_bits(x) on every flag type (fix changes golden tests).",
+    technique="TLA+ spec explored with TLC per corpus flag; spec-generated answer tables replayed into the real generated flag types and synthesised flag structs",
+)
+
 NOT_YET = {}
 
 def main():
